@@ -3,7 +3,7 @@ CONSTANTS
   NJs <- L_OneTwo
   NAs <- L_Two
   Presets <- L_P4
-  JPresets <- L_JQ
+  JPresets <- L_JP
   Us <- L_U
   Ws <- L_W
   Q0s <- L_Q1
@@ -12,6 +12,7 @@ CONSTANTS
   Clamps <- L_True
   Actuations <- L_True
   DisSets <- L_DisQ
+  Gravs <- L_G1
   Variant = "doc"
 VIEW ViewNoEv
 INVARIANT TypeOK
@@ -23,6 +24,7 @@ INVARIANT ActuationOffNoJointForce
 INVARIANT DisabledFrozen
 INVARIANT PowerBalance
 INVARIANT Undriven
+INVARIANT GravCompRouted
 INVARIANT ActInRange
 INVARIANT JointClampMinimal
 INVARIANT MuscleEnvelope
